@@ -131,6 +131,23 @@ pub fn run(ctx: &Ctx) -> i32 {
     ev.set("samples", json!([{"field": "Field32A", "content": "240719KWD1,500"}, {"field": "Field60F", "content": "C231225USD1234,567"}, {"field": "Field19", "content": "inf"}]));
     ev.assume("a '.' separator and an amount without any separator are Unspecified for accept/reject (the crate's own tests and examples use them); value preservation is still required when they are accepted");
     ev.assume("ISO 4217 minor units from the embedded table; non-ISO three-letter codes are Unspecified");
+    // ---- the public helper validate_amount_decimals(value, currency): every ISO code x 0..6 written decimals x 3 magnitudes
+    let mut helper_evals = 0u64;
+    for (ccy, minor) in iso4217::TABLE.iter() {
+        if *minor == 255 { continue; }
+        for k in 0..=6usize { for int in ["10", "2500", "1500000"] {
+            let text = if k == 0 { int.to_string() } else { format!("{int}.{}1", "0".repeat(k - 1)) };
+            let v: f64 = text.parse().unwrap();
+            helper_evals += 1;
+            let ok = matches!(guarded(|| swift_mt_message::fields::swift_utils::validate_amount_decimals(v, ccy)), Ok(Ok(())));
+            let want = k <= *minor as usize;
+            if ok != want {
+                let clause = if ok { "over-accept" } else { "reject-valid" };
+                col.add(format!("C06/validate_amount_decimals/{clause}:{k}d-for-{minor}d-currency"), 9_000_000_000 + helper_evals, || format!("validate_amount_decimals({text}, {ccy}) -> {}", if ok { "Ok" } else { "Err" }), || json!({"helper": "validate_amount_decimals", "amount": text, "currency": ccy}));
+            }
+        } }
+    }
+    ev.set("helper_evaluations", json!(helper_evals));
     super::finish(ev, &col)
 }
 
